@@ -160,6 +160,50 @@ def stepAsync {σ} (locking : Bool) (D : Dev σ) (progs : List Prog) (s : St σ)
 def runAsync {σ} (locking : Bool) (D : Dev σ) (progs : List Prog) (sched : List Nat) : St σ :=
   sched.foldl (stepAsync locking D progs) (init D progs)
 
+/-! ### a caller gives up while it WAITS for the lock
+
+    asyncio: `task.cancel()`, or the `asyncio.wait_for` of the timeout decorator expiring, while the task is
+    parked in `async with self.channel_lock:` (async_channel.py:50).  `asyncio.Lock.acquire()` raises
+    CancelledError, `__aenter__` has not completed so `__aexit__` is NOT run: the operation is abandoned
+    without a transport call and WITHOUT touching the lock.  (Threads cannot be cancelled; a thread whose
+    timeout expires while its pool worker waits for the lock is joined, i.e. it simply waits.)
+    `releases = true` is the variant "release in a `finally` that also covers the acquire" — asyncio.Lock.release()
+    does not check ownership — kept to show what the `with` statement excludes. -/
+
+/-- schedule entry: run caller `i` to its next yield point | cancel caller `i` if it is waiting for the lock -/
+inductive SEv where
+  | run (i : Nat)
+  | cancel (i : Nat)
+deriving Repr, DecidableEq
+
+def cancelWaiting {σ} (releases : Bool) (progs : List Prog) (s : St σ) (i : Nat) : St σ :=
+  match s.callers[i]? with
+  | none => s
+  | some c =>
+    match c.cur with
+    | some _ => s                      -- inside an operation: that is a failing transport call (`Step.fails`), not this event
+    | none =>
+      match opAt progs i c.pc with
+      | none => s                      -- program finished
+      | some _ =>
+        { s with callers := s.callers.set i { pc := c.pc + 1, cur := none, reads := [] },
+                 lock := if releases then none else s.lock }
+
+def stepE {σ} (releases locking : Bool) (D : Dev σ) (progs : List Prog) (s : St σ) : SEv → St σ
+  | .run i => step locking D progs s i
+  | .cancel i => cancelWaiting releases progs s i
+
+def stepEAsync {σ} (releases locking : Bool) (D : Dev σ) (progs : List Prog) (s : St σ) : SEv → St σ
+  | .run i => stepAsync locking D progs s i
+  | .cancel i => cancelWaiting releases progs s i
+
+/-- the state after a history of run / cancel events -/
+def runE {σ} (releases locking : Bool) (D : Dev σ) (progs : List Prog) (evs : List SEv) : St σ :=
+  evs.foldl (stepE releases locking D progs) (init D progs)
+
+def runEAsync {σ} (releases locking : Bool) (D : Dev σ) (progs : List Prog) (evs : List SEv) : St σ :=
+  evs.foldl (stepEAsync releases locking D progs) (init D progs)
+
 /-! ### sequential reference: one operation run from start to end, operations one at a time -/
 
 def runOp {σ} (D : Dev σ) (w : World σ) (i k : Nat) : List Step → List Bytes → World σ × Outcome
